@@ -967,7 +967,7 @@ func main() {
 	out := flag.String("out", "", "output directory")
 	seed := flag.Int64("seed", 1, "seed")
 	tier := flag.String("tier", "quick", "quick|thorough")
-	mode := flag.String("mode", "both", "calls|crash|both")
+	mode := flag.String("mode", "both", "calls|crash|races|both")
 	flag.Parse()
 	if *out == "" {
 		fmt.Fprintln(os.Stderr, "usage: fs -out DIR")
@@ -979,15 +979,22 @@ func main() {
 	if *tier == "thorough" {
 		nTraces, steps, nHist = 1500, 60, 120
 	}
-	calls, images := 0, 0
+	calls, images, races := 0, 0, 0
 	if *mode == "calls" || *mode == "both" {
 		calls = runCalls(*out, *seed, nTraces, steps, guard)
+	}
+	if *mode == "races" || *mode == "both" {
+		nRaces := 1500
+		if *tier == "thorough" {
+			nRaces = 12000
+		}
+		races = runRaces(*out, *seed, nRaces, guard)
 	}
 	if *mode == "crash" || *mode == "both" {
 		images = runCrash(*out, *seed, nHist, *tier, guard)
 	}
 	total := guard.Len()
 	guard.Restore()
-	h.WriteJSON(*out+"/summary.json", map[string]any{"call_events": calls, "images": images, "stdio_bytes": total})
-	fmt.Printf("fs: %d call events, %d images, %d stdio bytes\n", calls, images, total)
+	h.WriteJSON(*out+"/summary.json", map[string]any{"call_events": calls, "images": images, "races": races, "stdio_bytes": total})
+	fmt.Printf("fs: %d call events, %d images, %d races, %d stdio bytes\n", calls, images, races, total)
 }
